@@ -1,7 +1,7 @@
 from .common import pyvc_units
 
 LEVEL = "other"
-MODULES = ["vf.contracts.c_circuit_modes", "vf.contracts.c_heralding", "vf.contracts.c_matrix", "vf.contracts.c_specshift"]
+MODULES = ["vf.contracts.c_circuit_modes", "vf.contracts.c_heralding", "vf.contracts.c_matrix", "vf.contracts.c_specshift", "vf.contracts.c_rewrite"]
 EXPLANATION = (
     "Clause table. PROVED (pyvc, unbounded in mode count / ancilla count / list length): Circuit._map_mode returns the mode-th user-visible "
     "full mode (not an ancilla; exactly k ancillas below it) for every set of distinct internal modes [loop invariant with ghost rank k, "
